@@ -14,5 +14,5 @@ RULE = (
 ASSUMPTIONS = []
 REQUIRED_CLASSES = {t: ["iou_edge:skip:bulk", "iou_edge:skip:incremental", "iou_edge:consecutive:bulk",
                         "iou_edge:consecutive:incremental"] for t in ("quick", "thorough")}
-run_shard, replay, minimise = make(C09Oracle, quick=(320, 25), thorough=(3200, 40), profile="paint",
+run_shard, replay, minimise = make(C09Oracle, quick=(1600, 25), thorough=(3200, 40), profile="paint",
                                    cfg_kwargs={"seg": True}, init_kwargs={"need_edges": True})
